@@ -47,6 +47,9 @@ type rworld struct {
 	heldPeer int
 	heldMsgs int
 
+	sentIDs   map[int]bool // identifiers handed to some Send
+	seenIDs   map[int]bool // identifiers that arrived somewhere
+	corrupt   int          // arrivals with an identifier nobody sent, or a second arrival of one
 	hsend     int
 	ncalls    int
 	abandoned bool
@@ -80,6 +83,26 @@ func (w *rworld) newRouter(si *network.ServerIdentity, first bool) (*network.Rou
 	return r, nil
 }
 
+func (w *rworld) markSent(ids ...int) {
+	w.mu.Lock()
+	for _, id := range ids {
+		w.sentIDs[id] = true
+	}
+	w.mu.Unlock()
+}
+
+// arrived keeps 'arrived' apart from 'arrived intact and once'
+func (w *rworld) arrived(env *network.Envelope) {
+	m, ok := env.Msg.(*TMsg)
+	w.mu.Lock()
+	if !ok || !w.sentIDs[m.ID] || w.seenIDs[m.ID] {
+		w.corrupt++
+	} else {
+		w.seenIDs[m.ID] = true
+	}
+	w.mu.Unlock()
+}
+
 func (w *rworld) newIdentity(k int) *network.ServerIdentity {
 	if w.tcp {
 		return network.NewServerIdentity(kp(k).Public, network.NewTCPAddress("127.0.0.1:0"))
@@ -95,6 +118,7 @@ func (w *rworld) startPeer(p *rpeer, first bool) error {
 	}
 	cnt := new(int32)
 	r.RegisterProcessorFunc(tmsgType, func(env *network.Envelope) error {
+		w.arrived(env)
 		atomic.AddInt32(cnt, 1)
 		return nil
 	})
@@ -109,7 +133,7 @@ func (w *rworld) startPeer(p *rpeer, first bool) error {
 }
 
 func newRworld(tcp bool, np, nh, hsend int) (*rworld, error) {
-	w := &rworld{tcp: tcp, hsend: hsend, reent: make(chan reentReq), done: make(chan struct{}), armed: -1, blockedOn: -1, blockedHit: make(chan struct{}, 4), release: make(chan struct{})}
+	w := &rworld{tcp: tcp, hsend: hsend, sentIDs: map[int]bool{}, seenIDs: map[int]bool{}, reent: make(chan reentReq), done: make(chan struct{}), armed: -1, blockedOn: -1, blockedHit: make(chan struct{}, 4), release: make(chan struct{})}
 	if !tcp {
 		w.lm = network.NewLocalManager()
 	}
@@ -126,6 +150,7 @@ func newRworld(tcp bool, np, nh, hsend int) (*rworld, error) {
 		S.AddErrorHandler(func(si *network.ServerIdentity) { w.onHandler(h, si) })
 	}
 	S.RegisterProcessorFunc(tmsgType, func(env *network.Envelope) error {
+		w.arrived(env)
 		atomic.AddInt32(&w.disp, 1)
 		return nil
 	})
@@ -185,7 +210,8 @@ func (w *rworld) onHandler(h int, si *network.ServerIdentity) {
 		rel = w.release
 	}
 	w.mu.Unlock()
-	reentrant(w.S, si, h, w.hsend, ncalls, w.reent)
+	w.markSent(1000000 + ncalls)
+	reentrant(w.S, si, h, w.hsend, 1000000+ncalls, w.reent)
 	if block {
 		w.blockedHit <- struct{}{}
 		<-rel
@@ -259,6 +285,7 @@ func (w *rworld) settle() bool {
 }
 
 func (w *rworld) send(p int, ids []int) (int, bool) {
+	w.markSent(ids...)
 	done := make(chan error, 1)
 	go func() {
 		_, err := w.S.Send(w.peers[p].si, tmsgs(ids)...)
@@ -308,6 +335,7 @@ func (w *rworld) exec(o *opj) (int, bool, bool) {
 			return ok && r == S
 		})
 		before := w.curCount(o.P)
+		w.markSent(o.M...)
 		done := make(chan error, 1)
 		go func() {
 			_, err := w.S.Send(w.peers[o.P].si, tmsgs(o.M)...)
@@ -366,6 +394,7 @@ func (w *rworld) exec(o *opj) (int, bool, bool) {
 			return 0, true, false
 		}
 		before := atomic.LoadInt32(&w.disp)
+		w.markSent(o.M[0])
 		pr := pe.routers[len(pe.routers)-1]
 		done := make(chan error, 1)
 		go func() {
@@ -412,7 +441,8 @@ func (w *rworld) exec(o *opj) (int, bool, bool) {
 		}
 		// the router is closed (flag set, connections closed); one of its goroutines still sends
 		sent := make(chan struct{})
-		go func() { pr.Send(w.S.ServerIdentity, &TMsg{ID: 0}); close(sent) }()
+		w.markSent(2000000 + len(pe.routers))
+		go func() { pr.Send(w.S.ServerIdentity, &TMsg{ID: 2000000 + len(pe.routers)}); close(sent) }()
 		select {
 		case <-sent:
 		case <-time.After(10 * time.Second):
@@ -523,10 +553,13 @@ func (w *rworld) snapshot(res int, skip, timeout bool) (string, map[string]inter
 		r = "(Some false)"
 	}
 	disp := int(atomic.LoadInt32(&w.disp))
-	coq := fmt.Sprintf("mkCSnap %s %s %s %s %s %s %d", r, lib.Bool(skip), lib.Bool(timeout), lib.NatList(tab),
-		lib.List(calls), lib.List(deliv), disp)
+	w.mu.Lock()
+	corrupt := w.corrupt
+	w.mu.Unlock()
+	coq := fmt.Sprintf("mkCSnap %s %s %s %s %s %s %d %d", r, lib.Bool(skip), lib.Bool(timeout), lib.NatList(tab),
+		lib.List(calls), lib.List(deliv), disp, corrupt)
 	return coq, map[string]interface{}{"res": res, "skip": skip, "timeout": timeout, "table": tab, "calls": callsH,
-		"delivered": delivH, "dispatched": disp}
+		"delivered": delivH, "dispatched": disp, "arrived_with_unknown_or_repeated_id": corrupt}
 }
 
 func (w *rworld) cleanup() {
